@@ -53,3 +53,29 @@ Example C06_example :
   let l := Complemented (Joined [Ranged 2 6 true false; Ordered [Point 8; Between 9]; Ambiguous 11 14]) in
   as_location (show l) = Ok l.
 Proof. vm_compute. reflexivity. Qed.
+
+(* print -> parse: gts.AsLocation(l.String()) = l, for every location whose
+   coordinates fit an int64, whose joins and orders are in the normal form
+   their constructors produce (join ls = Ok (Joined ls), order ls = Ok (Ordered
+   ls)) and which has no complement directly inside a complement (the API and
+   the parser unwrap it).  Statement by statement on the faithful pars model:
+   every alternative of ParseLocation that is tried before the right one fails
+   and hands the state back, the right one consumes exactly the text. *)
+From GTS Require Import LocParse IntRT LocRT.
+Theorem C06_print_parse_roundtrip : forall l, printable l -> as_location (show l) = Ok l.
+Proof. exact as_location_show. Qed.
+Print Assumptions C06_print_parse_roundtrip.
+
+(* strconv.Itoa then strconv.Atoi / pars.Int *)
+Theorem C06_atoi_itoa : forall n, 0 <= n <= int64_max -> atoi (itoa n) = Ok n.
+Proof. exact atoi_itoa. Qed.
+Print Assumptions C06_atoi_itoa.
+
+Example C06_printable_example :
+  let l := Complemented (Joined [Ranged 0 5 true false; Point 8; Ordered [Between 11; Ambiguous 14 17]; Ranged 20 30 false true]) in
+  printable l /\ as_location (show l) = Ok l.
+Proof.
+  cbv zeta. split.
+  - cbn [printable]. unfold coord, int64_max. repeat split; try lia; try reflexivity.
+  - vm_compute. reflexivity.
+Qed.
